@@ -37,13 +37,16 @@ func EvalCheckCallMap(m *modelgen.Model, got map[string]int) []Mismatch {
 	want := EvalCallCounts(m)
 	declared := m.Declared()
 	callers := map[string]map[string]bool{}
+	places := map[string]map[string]bool{} // distinct (caller, line) places per callee
 	for _, me := range m.Methods() {
 		for _, c := range me.Calls {
 			if c.Class != "" {
 				if callers[c.Full()] == nil {
 					callers[c.Full()] = map[string]bool{}
+					places[c.Full()] = map[string]bool{}
 				}
 				callers[c.Full()][me.Full()] = true
+				places[c.Full()][fmt.Sprintf("%s:%d", me.Full(), c.Line)] = true
 			}
 		}
 	}
@@ -56,6 +59,8 @@ func EvalCheckCallMap(m *modelgen.Model, got map[string]int) []Mismatch {
 			sig := "count-too-low"
 			if g == len(callers[k]) {
 				sig = "count-too-low-equals-number-of-callers"
+			} else if g == len(places[k]) {
+				sig = "count-too-low-same-line-sites-merged"
 			}
 			out = append(out, Mismatch{sig, fmt.Sprintf("%q: count %d, the model records %d call sites from %d caller(s)", k, g, want[k], len(callers[k]))})
 		case g > want[k]:
@@ -67,6 +72,73 @@ func EvalCheckCallMap(m *modelgen.Model, got map[string]int) []Mismatch {
 			continue
 		}
 		if _, ok := declared[k]; ok {
+			out = append(out, Mismatch{"count-never-called-method-present", fmt.Sprintf("%q is declared but never called, yet the count map has %q: %d", k, k, got[k])})
+		} else {
+			out = append(out, Mismatch{"count-undeclared-name-present", fmt.Sprintf("count map has %q: %d, which is no declared method of the model", k, got[k])})
+		}
+	}
+	return out
+}
+
+// EvalCallRecord is one recorded call entry of a code model in neutral form (used where the model is not a
+// synthetic one but the output of the full pass over a generated project).
+type EvalCallRecord struct {
+	Caller, Callee string // full names
+	Line, Col      int
+}
+
+// EvalCountsFromRecords: declared full name -> number of recorded call entries naming it.
+func EvalCountsFromRecords(declared []string, calls []EvalCallRecord) map[string]int {
+	isDecl := map[string]bool{}
+	for _, d := range declared {
+		isDecl[d] = true
+	}
+	out := map[string]int{}
+	for _, c := range calls {
+		if isDecl[c.Callee] {
+			out[c.Callee]++
+		}
+	}
+	return out
+}
+
+// EvalCheckRecordedCounts compares a count map with the recorded call entries of the model it was built from.
+// A count that equals the number of distinct (caller, callee, line) triples although several entries share a
+// line gets its own signature.
+func EvalCheckRecordedCounts(declared []string, calls []EvalCallRecord, got map[string]int) []Mismatch {
+	var out []Mismatch
+	want := EvalCountsFromRecords(declared, calls)
+	isDecl := map[string]bool{}
+	for _, d := range declared {
+		isDecl[d] = true
+	}
+	perLine := map[string]map[string]bool{}
+	for _, c := range calls {
+		if perLine[c.Callee] == nil {
+			perLine[c.Callee] = map[string]bool{}
+		}
+		perLine[c.Callee][fmt.Sprintf("%s:%d", c.Caller, c.Line)] = true
+	}
+	for _, k := range evalSortedIntKeys(want) {
+		g, ok := got[k]
+		switch {
+		case !ok:
+			out = append(out, Mismatch{"count-called-method-missing", fmt.Sprintf("%q has %d recorded call site(s) but no entry in the count map", k, want[k])})
+		case g < want[k]:
+			sig := "count-too-low"
+			if g == len(perLine[k]) {
+				sig = "count-too-low-same-line-sites-merged"
+			}
+			out = append(out, Mismatch{sig, fmt.Sprintf("%q: count %d, the model records %d call sites on %d distinct (caller, line) places", k, g, want[k], len(perLine[k]))})
+		case g > want[k]:
+			out = append(out, Mismatch{"count-too-high", fmt.Sprintf("%q: count %d, the model records %d call sites", k, g, want[k])})
+		}
+	}
+	for _, k := range evalSortedIntKeys(got) {
+		if _, ok := want[k]; ok {
+			continue
+		}
+		if isDecl[k] {
 			out = append(out, Mismatch{"count-never-called-method-present", fmt.Sprintf("%q is declared but never called, yet the count map has %q: %d", k, k, got[k])})
 		} else {
 			out = append(out, Mismatch{"count-undeclared-name-present", fmt.Sprintf("count map has %q: %d, which is no declared method of the model", k, got[k])})
@@ -201,7 +273,17 @@ func EvalCheckSummary(p *evalgen.Project, got EvalSummary) []Mismatch {
 			out = append(out, Mismatch{"nullable-unknown-method", fmt.Sprintf("nullable list names %q, which is no method of the project", it)})
 			continue
 		case seen[it] > 1:
-			out = append(out, Mismatch{"nullable-listed-twice", fmt.Sprintf("%q is listed %d times", it, seen[it])})
+			// "each listed once", however many grounds make the method nullable
+			sig := "nullable-listed-twice"
+			switch {
+			case m.NullAnno2 != "":
+				sig = "nullable-listed-twice-both-annotations"
+			case m.NullAnno != "" && m.NullReturn != "":
+				sig = "nullable-listed-twice-annotation-and-return-null"
+			case m.NullReturn == evalgen.NullBoth:
+				sig = "nullable-listed-twice-two-null-returns"
+			}
+			out = append(out, Mismatch{sig, fmt.Sprintf("%q is listed %d times (nullable on %d ground(s)): %s", it, seen[it], m.Reasons(), EvalDescribeMethod(m))})
 		}
 		if !m.Nullable() {
 			sig := "nullable-extra"
@@ -252,6 +334,9 @@ func EvalDescribeMethod(m *evalgen.Method) string {
 	}
 	if m.NullAnno != "" {
 		s += " carries @" + m.NullAnno + " (" + m.AnnoPos + ")"
+		if m.NullAnno2 != "" {
+			s += " and @" + m.NullAnno2
+		}
 	}
 	if len(m.Body) > 0 {
 		s += " body: " + strings.Join(m.Body, " ")
